@@ -27,15 +27,16 @@ class SyncProducer:
         :param period:
             Period of SYNC message in seconds.
         """
+        # Stop an already running transmission, otherwise its task would be
+        # leaked and keep transmitting (also when the new period is refused)
+        self.stop()
+
         if period is not None:
             self.period = period
 
         if not self.period:
             raise ValueError("A valid transmission period has not been given")
 
-        # Stop an already running transmission, otherwise its task would be
-        # leaked and keep transmitting
-        self.stop()
         self._task = self.network.send_periodic(self.cob_id, [], self.period)
 
     def stop(self):
